@@ -22,6 +22,22 @@ def kindOf (res : String) : String := if res == "panic" then "panic" else "ok"
 
 def firstFail (xs : List (Option String)) : Option String := xs.findSome? id
 
+/-- pseudo-random valuations for diagrams too wide for a full truth table (same mixing as `Drive/C01.lean`) -/
+def sampleVal (n k : Nat) : Nat → Bool := fun j =>
+  let z := (k + 1) * 0x9E3779B97F4A7C15 % 2 ^ 64
+  let z := (z ^^^ (z >>> 29)) * 0xBF58476D1CE4E5B9 % 2 ^ 64
+  let z := (z ^^^ (z >>> 32))
+  j < n && (z >>> (j % 60)) % 2 == 1
+
+def samples : Nat := 4096
+
+/-- the composition identity on `samples` pseudo-random valuations -/
+def compositionSampled (f g r : Arr) (n x : Nat) : Bool :=
+  (List.range samples).all fun k =>
+    let v := sampleVal n k
+    let gv := evalArr g v
+    evalArr r v == evalArr f (fun y => if y = x then gv else v y)
+
 /-- the variables some decision node of the given diagrams is labelled with, plus `x` (no duplicates) -/
 def usedVars (As : List Arr) (x : Nat) : List Nat :=
   (As.flatMap fun A => (A.toList.drop 2).map (·.var)).foldl (fun acc y => if acc.contains y then acc else acc ++ [y]) [x]
@@ -58,7 +74,8 @@ def handle (key : String) (ins obs : List String) : Verdict :=
             if n > maxTT then
               (match compositionHolds f g r x with
                | some false => some "not-the-composition"
-               | _ => none)
+               | some true => none
+               | none => if compositionSampled f g r n x then none else some "not-the-composition(sampled)")
             else
               if (List.range (2 ^ n)).all fun i =>
                 let v := valOfIndex n i
@@ -73,7 +90,8 @@ def handle (key : String) (ins obs : List String) : Verdict :=
       { agree := model == res, model, fail,
         nontrivial := valid && path != "unchanged" && g.size > 2,
         tags := [path, s!"n{n}", if valid then "valid" else (if n + 1 < 65536 then "invalid-input" else "max-vars-clash"),
-          kindOf res] ++ (if n ≥ 300 then ["boundary"] else []) ++ extra }
+          kindOf res] ++ (if n ≥ 300 then ["boundary"] else []) ++
+          (if f.size > 65536 || g.size > 65536 then ["big-operand"] else []) ++ extra }
     | _, _, _ => Verdict.bad "args"
   | _, _, _ => Verdict.bad ("key " ++ key)
 
